@@ -48,6 +48,24 @@ def healthy(seed, quick):
                     ops = standard_ops(nb, rng)
                     ops += [O('mark_uninit'), O('read', blk=1, n=1), O('mark_uninit'), O('card_type'), O('write', blk=2, n=2), O('read', blk=2, n=2)]
                     S.append(dict(id='H%d-%s-%s' % (k, kind, 'crc' if crc else 'nocrc'), kind=kind, crc=crc, csd=csd, timing=t, seed=seed * 1000 + k, ops=ops))
+    # a card that reports OUT_OF_RANGE in the stop-transmission response when its read-ahead ran past the last block (legal):
+    # multi-block reads that end exactly on the last block of the card
+    for kind in KINDS:
+        for crc in (True, False):
+            k += 1
+            csd = CSDS[kind][0]
+            nb = cap(csd)
+            ops = [O('read', blk=nb - 3, n=3), O('read', blk=nb - 2, n=2), O('read', blk=nb - 1, n=1), O('read', blk=nb - 4, n=3), O('read', blk=0, n=2),
+                   O('write', blk=nb - 2, n=2), O('read', blk=nb - 2, n=2), O('num_blocks')]
+            S.append(dict(id='H%d-oor-%s-%s' % (k, kind, 'crc' if crc else 'nocrc'), kind=kind, crc=crc, csd=csd, timing=dict(resp=1, tok=2, busy=3, acmd41=1), seed=seed * 1000 + k,
+                          ops=ops, oor=True))
+    # long transfers on a healthy card: many blocks, each followed by a (legal, short) busy period - the busy periods of one call
+    # add up to more than any single wait allows; long multi-block reads
+    for kind, crc, n, busy in ([('sdhc', True, 100, 600), ('sd1', False, 70, 900)] if quick else [('sdhc', True, 100, 600), ('sd1', False, 70, 900), ('sd2', True, 512, 120), ('sdhc', False, 300, 250)]):
+        k += 1
+        ops = [O('write', blk=3, n=n), O('read', blk=3, n=n), O('write', blk=1, n=1), O('read', blk=1, n=2), O('num_blocks')]
+        S.append(dict(id='H%d-long-%s-%s' % (k, kind, 'crc' if crc else 'nocrc'), kind=kind, crc=crc, csd=CSDS[kind][1], timing=dict(resp=1, tok=3, busy=busy, acmd41=1),
+                      seed=seed * 1000 + k, ops=ops))
     return S
 
 def weird_csd(seed, quick):
@@ -127,6 +145,16 @@ def misbehaving(seed, quick):
                 add('flip%d' % b, kind, crc, [dict(when='data', nth=2, what='flip', arg=b)], [O('read', blk=1, n=1)])
             for b in [0, 5, 4000, 4095] + [rng.randrange(4096) for _ in range(3 if quick else 30)]:
                 add('burst%d' % b, kind, crc, [dict(when='data', nth=3, what='burst', arg=b)], [O('read', blk=1, n=2)])
+            # the same after another driver object took the initialised card over (mark_card_as_init)
+            tk = [O('card_type'), O('read', blk=3, n=1), O('takeover')]
+            for b in [0, 9, 4095, 4096, 4111]:
+                add('tk-flip%d' % b, kind, crc, [dict(when='data', nth=2, what='flip', arg=b)], [O('read', blk=1, n=1)], pre=tk)
+            add('tk-burst', kind, crc, [dict(when='data', nth=3, what='burst', arg=5)], [O('read', blk=1, n=2)], pre=tk)
+            add('tk-csdflip', kind, crc, [dict(when='data', nth=2, what='flip', arg=70)], [O('num_blocks')], pre=tk)
+            add('tk-badtoken', kind, crc, [dict(when='data', nth=2, what='badtoken')], [O('read', blk=1, n=1)], pre=tk)
+            add('tk-crcreject', kind, crc, [dict(when='write', nth=1, what='crcreject')], [O('write', blk=1, n=1)], pre=tk)
+            add('tk-status', kind, crc, [dict(when='cmd13', nth=1, what='status', arg=0x80)], [O('write', blk=1, n=1)], pre=tk)
+            add('tk-healthy', kind, crc, [], [O('write', blk=1, n=2), O('read', blk=1, n=2), O('num_bytes'), O('takeover'), O('read', blk=1, n=1)], pre=tk)
             add('csdflip', kind, crc, [dict(when='data', nth=2, what='flip', arg=70)], [O('num_bytes')])
             add('csdeflip', kind, crc, [dict(when='data', nth=2, what='flip', arg=81)], [O('erase_en')])
             # writes
